@@ -15,10 +15,26 @@ int32_t readint_stub(UnmarshalState *st, const uint8_t **atdata) { int32_t v = n
 #define MF_NATMAX 0x7fffffff
 #endif
 int32_t readnat_stub(UnmarshalState *st, const uint8_t **atdata) { int32_t v = nd_i32(); __CPROVER_assume(v >= 0 && v <= MF_NATMAX); if (g_nn < 6) g_nat[g_nn] = v; g_nn++; return v; }
+#ifdef MF_ORDER
+/* C09: the reader consumes the tail of a fiber image in the order marshal_one_fiber writes it: environment table (when flagged),
+ * pending child (when flagged), last value. The value stream is typed accordingly: a reader that asks for them in another order
+ * asks for a fiber where the table is, and the other way round. */
+static int mo_env_read, mo_child_read, mo_last_read;
+void mo_asserttype_stub(Janet x, JanetType t, UnmarshalState *st) {
+  if (t == JANET_TABLE) { __CPROVER_assert(!mo_child_read && !mo_last_read, "C09 fiber image: the environment is read before the child and the last value (the order marshal writes)"); mo_env_read++; }
+  else if (t == JANET_FIBER) { __CPROVER_assert((!(g_int[0] & JANET_FIBER_FLAG_HASENV) || mo_env_read == 1) && !mo_last_read, "C09 fiber image: the pending child is read after the environment and before the last value (the order marshal writes)"); mo_child_read++; }
+  if (!janet_checktype(x, t)) __CPROVER_assume(0);
+}
+#endif
 const uint8_t *unmarshal_one_stub(UnmarshalState *st, const uint8_t *data, Janet *out, int flags) {
   Janet v; /* uninitialised local = arbitrary value (tagged-struct configuration) */
   /* a value tagged as function always refers to a real, verified function object */
   if (janet_checktype(v, JANET_FUNCTION)) v = janet_wrap_function(&g_func);
+#ifdef MF_ORDER
+  { static JanetTable mo_table; static JanetFiber mo_fiber;      /* values of heap types refer to objects */
+    if (v.type == JANET_TABLE) v.as.pointer = &mo_table;
+    if (v.type == JANET_FIBER) v.as.pointer = &mo_fiber; }
+#endif
   *out = v; return data;
 }
 const uint8_t *unmarshal_one_env_stub(UnmarshalState *st, const uint8_t *data, JanetFuncEnv **out, int flags) { *out = &g_env; return data; }
@@ -66,6 +82,11 @@ void h_unmarshal_fiber(void) {
     __CPROVER_assert(g_int[1] & JANET_STACKFRAME_ENTRANCE, "C10 fiber image: the first frame of a fiber is an entrance frame (returning from it ends the fiber)");
     REACH("fiber image: single frame");
   }
+#endif
+#ifdef MF_ORDER
+  __CPROVER_assert(mo_env_read == ((g_int[0] & JANET_FIBER_FLAG_HASENV) ? 1 : 0) && mo_child_read == ((g_int[0] & JANET_FIBER_FLAG_HASCHILD) ? 1 : 0), "C09 fiber image: environment and child are read exactly when the image flags them");
+  __CPROVER_assert(((out->env != 0) == ((g_int[0] & JANET_FIBER_FLAG_HASENV) != 0)) && ((out->child != 0) == ((g_int[0] & JANET_FIBER_FLAG_HASCHILD) != 0)), "C09 fiber image: the fiber gets an environment / a child exactly when the image has one");
+  if ((g_int[0] & JANET_FIBER_FLAG_HASENV) && (g_int[0] & JANET_FIBER_FLAG_HASCHILD)) REACH("fiber image with environment and child");
 #endif
   REACH("unmarshal_one_fiber accepts an image");
 }
